@@ -68,12 +68,13 @@ class HandlerModel:
             out.append((label, kinds, spec))
         return out
 
-    def run(self, code, shape, flags=None, handler=None, **opts):
+    def run(self, code, shape, flags=None, handler=None, cmp_oracle=None, **opts):
         d = self.D.codes[code]
         h = self.F.bodies[handler or d["handler"]]
         label, kinds, spec = shape
         pr = P.HandlerPrims(self.F, self.R, spec, code=code, mnemonic=d["mnemonic"], opkinds=kinds, **opts)
         I = A.Interp(self.F, intercept=pr.intercept)
+        I.cmp_oracle = cmp_oracle
         path = A.Path()
         if flags is not None:
             path.assume = flag_assume(flags)
@@ -95,6 +96,33 @@ def mentions(t, leaf, depth=0):
         return False
     for x in t:
         if isinstance(x, tuple) and mentions(x, leaf, depth + 1):
+            return True
+    return False
+
+
+def leaves_all(t, tag, acc=None, depth=0):
+    """all sub-tuples of t whose head is `tag`"""
+    if acc is None:
+        acc = []
+    if depth > 30 or not isinstance(t, tuple):
+        return acc
+    if t and t[0] == tag:
+        acc.append(t)
+        return acc
+    for x in t:
+        if isinstance(x, tuple):
+            leaves_all(x, tag, acc, depth + 1)
+    return acc
+
+
+def mentions_op(t, op, depth=0):
+    """does term t contain a binary operation `op`"""
+    if depth > 30 or not isinstance(t, tuple):
+        return False
+    if t and t[0] == "bin" and t[1] == op:
+        return True
+    for x in t:
+        if isinstance(x, tuple) and mentions_op(x, op, depth + 1):
             return True
     return False
 
